@@ -104,3 +104,26 @@ func (a *Activation) appendStructs(st *State, s, more Term, elemT types.Type, fi
 	}
 	return g.define("app", res)
 }
+
+// leafLocs enumerates the scalar cells (with their types) of an object of type t at loc.
+func (a *Activation) leafLocs(loc Term, t types.Type) []protectedLoc {
+	g := a.g
+	switch u := t.Underlying().(type) {
+	case *types.Struct:
+		var out []protectedLoc
+		for i := 0; i < u.NumFields(); i++ {
+			out = append(out, a.leafLocs(g.fldLoc(loc, t, i), u.Field(i).Type())...)
+		}
+		return out
+	case *types.Array:
+		if u.Len() > 16 {
+			return nil
+		}
+		var out []protectedLoc
+		for i := int64(0); i < u.Len(); i++ {
+			out = append(out, a.leafLocs(elemLoc(loc, bv64(uint64(i))), u.Elem())...)
+		}
+		return out
+	}
+	return []protectedLoc{{loc: loc, ty: t}}
+}
